@@ -25,6 +25,11 @@ muts=[
  ("service/server_salt.go","return bytes.Equal(tag[:serverSaltMarkLen], mark)","return bytes.Equal(tag[1:serverSaltMarkLen+1], mark)","C08","mark compared with the wrong tag bytes"),
  ("cmd/outline-ss-server/config.go","if _, exists := existingListeners[key]; exists {","if _, exists := existingListeners[key]; exists && lnConfig.Type == listenerTypeTCP {","C10","duplicate UDP listeners accepted"),
  ("cmd/outline-ss-server/config.go","if ip := net.ParseIP(host); ip == nil {","if ip := net.ParseIP(host); ip == nil && host != \"localhost\" {","C10","hostname localhost accepted"),
+ ('service/tcp.go','\tif authErr != nil {\n\t\t// Drain to protect against probing attacks.','\tconnMetrics.AddAuthenticated(id)\n\tif authErr != nil {\n\t\t// Drain to protect against probing attacks.','C15','AddAuthenticated before the authentication verdict (and again after)'),
+ ('service/tcp.go','\t\tio.Copy(io.Discard, outerConn)\n\t\treturn onet.NewConnectionError("ERR_READ_ADDRESS"','\t\t_ = io.Discard\n\t\treturn onet.NewConnectionError("ERR_READ_ADDRESS"','C06','unreadable address no longer drained'),
+ ('service/tcp.go','\touterConn.SetReadDeadline(readDeadline)\n\n\tid, innerConn, authErr := h.authenticate(outerConn)\n','\tid, innerConn, authErr := h.authenticate(outerConn)\n\touterConn.SetReadDeadline(readDeadline)\n','C06','read deadline armed only after authenticate has read'),
+ ('service/tcp.go','if deadline.Before(readDeadline) {','if readDeadline.Before(deadline) {','C06','read deadline is the later of the two'),
+ ('service/tcp.go','\ttgtAddr, err := getProxyRequest(innerConn)\n','\touterConn.SetReadDeadline(time.Time{})\n\ttgtAddr, err := getProxyRequest(innerConn)\n','C06','read deadline cleared before the address is read'),
 ]
 res=[]
 for i,(f,a,b,prop,what) in enumerate(muts):
